@@ -48,18 +48,42 @@ func poolWorkerFields() []string {
 		if st, ok := td.spec.Type.(*ast.StructType); ok {
 			for _, fld := range st.Fields.List {
 				for _, nm := range fld.Names {
-					types[nm.Name] = typeString(fld.Type)
+					types[nm.Name] = typeStringIn(td.file, fld.Type)
 				}
 			}
 		}
 	}
-	out := []string{}
-	for k := range seen {
-		if t, ok := types[k]; ok {
-			out = append(out, t)
-		} else {
-			out = append(out, "?"+k)
+	// how the mutex is held (sync.Mutex / sync.RWMutex, by value, by pointer or embedded) is
+	// not a change of what is shared: all of them are reported as "mutex"
+	isMutex := map[string]bool{"sync.Mutex": true, "sync.RWMutex": true, "*sync.Mutex": true, "*sync.RWMutex": true}
+	embeddedMutex := false
+	if td, ok := fn.pkg.types[fn.recv]; ok && td != nil {
+		if st, ok := td.spec.Type.(*ast.StructType); ok {
+			for _, fld := range st.Fields.List {
+				if len(fld.Names) == 0 && isMutex[typeStringIn(td.file, fld.Type)] {
+					embeddedMutex = true
+				}
+			}
 		}
+	}
+	lockMethod := map[string]bool{"Lock": true, "Unlock": true, "RLock": true, "RUnlock": true, "Mutex": true, "RWMutex": true}
+	set := map[string]bool{}
+	for k := range seen {
+		t, ok := types[k]
+		switch {
+		case ok && isMutex[t]:
+			set["mutex"] = true
+		case ok:
+			set[t] = true
+		case embeddedMutex && lockMethod[k]:
+			set["mutex"] = true
+		default:
+			set["?"+k] = true
+		}
+	}
+	out := []string{}
+	for k := range set {
+		out = append(out, k)
 	}
 	sort.Strings(out)
 	return out
@@ -81,7 +105,7 @@ func poolAccesses() []string {
 		if st, ok := td.spec.Type.(*ast.StructType); ok {
 			for _, fld := range st.Fields.List {
 				for _, nm := range fld.Names {
-					types[nm.Name] = typeString(fld.Type)
+					types[nm.Name] = typeStringIn(td.file, fld.Type)
 				}
 			}
 		}
@@ -109,11 +133,30 @@ func poolAccesses() []string {
 	return out
 }
 
+// typeStringIn is typeString with package qualifiers resolved through the imports of the
+// file the type expression is written in (an import alias is not a change of type).
+var typeStringFile *File
+
+func typeStringIn(f *File, e ast.Expr) string {
+	typeStringFile = f
+	defer func() { typeStringFile = nil }()
+	return typeString(e)
+}
+
 func typeString(e ast.Expr) string {
 	switch x := e.(type) {
 	case *ast.Ident:
 		return x.Name
 	case *ast.SelectorExpr:
+		if id, ok := x.X.(*ast.Ident); ok && typeStringFile != nil {
+			if ip, ok := typeStringFile.imports[id.Name]; ok {
+				base := ip
+				if i := strings.LastIndex(ip, "/"); i >= 0 {
+					base = ip[i+1:]
+				}
+				return base + "." + x.Sel.Name
+			}
+		}
 		return typeString(x.X) + "." + x.Sel.Name
 	case *ast.StarExpr:
 		return "*" + typeString(x.X)
